@@ -50,7 +50,15 @@ pub fn compare_globals(res: &RefResult, globals: &[(String, Variant)]) -> Option
 
 fn one_case(sh: &mut Shard, tape: &[u32], cfg: &GenCfg) -> Result<(), Violation> {
     let prog = Gen::new(tape, cfg).calls_program();
-    let r = render(&prog, &Layout::plain());
+    // a third of the programs write (some of) their SUB calls in the long spelling `CALL Name(args)`
+    let mut lay = Layout::plain();
+    let tape_hash = hash64(&tape);
+    if tape_hash % 3 == 0 {
+        lay.call_kw = 500;
+        lay.seed = tape_hash;
+        sh.class("spelling:CALL-statements");
+    }
+    let r = render(&prog, &lay);
     sh.eval();
     let res = match refsem::run(&prog, 200_000) {
         Outcome::Undetermined(why, _) => {
